@@ -178,8 +178,8 @@ def run_real(case):
             if u in key and v in key:
                 mol.add_edge(key[u], key[v])
         system.add_molecule(mol)
-    MakeBonds(allow_name=case['mode'] in ('both', 'name'), allow_dist=case['mode'] in ('both', 'dist'),
-              fudge=case['fudge']).run_system(system)
+    util.shared(MakeBonds, allow_name=case['mode'] in ('both', 'name'), allow_dist=case['mode'] in ('both', 'dist'),
+                fudge=case['fudge']).run_system(system)
     return system
 
 
